@@ -20,7 +20,7 @@ CHECKS = {
             CLAUSE + "Decides: no public entry point writes through an argument (PU-ARGS), no method mutates an object "
             "reachable from self in place (PU-CAPT), no module/class/default-argument state is written (PU-STATE), RNG and "
             "pyplot who-may-call (PU-RNG, PU-PLT), integer-closed stores into caller-typed copies and casts of one argument to another's "
-            "dtype (PU-DTYPE), module-level memo caches keyed by everything they depend on (PU-CACHE: a correct cache is not a "
+            "dtype (PU-DTYPE), module-level memo caches and class-level memo tables keyed by everything they depend on (PU-CACHE: a correct cache is not a "
             "violation, a cache keyed by too little is), no use of the value of a call that can return nothing (PU-NONE), no difference of two caller arrays, product, power or "
             "sum formed while both operands still have the caller's integer dtype (PU-INTARITH: unsigned differences wrap, narrow "
             "products overflow — found F12 and F13 in persim), in-place updates of an object the instance built for itself are "
@@ -44,7 +44,7 @@ SYMNOTE = ("Trusted: the primitive table of the symbolic evaluator (pst/core/pri
 CHECKS.update({
     "C01": (True, "symbolic abstract interpretation to normal forms (cost-matrix blocks, tiling for all sizes), edge relation of the "
                   "threshold graph as membership predicates, the search followed on bounded candidate lists with a feasibility "
-                  "oracle, + CFG/def-use site rules on the threshold search; typestate of one-shot iterators (IT-ONCE, run by every check on "
+                  "oracle, + CFG/def-use site rules on the threshold search; typestate of one-shot iterators (IT-ONCE: consumed twice on a path, or scanned with an early exit inside a loop that does not make them anew; run by every check on "
                   "the code it analysed)",
             CLAUSE + "Decides BN-COST, BN-TILE (slice stores, paired index-array diagonal stores, pre-filled base with explicit "
             "corner), BN-CAND (every finite cell of the matrix is among the candidate thresholds — the parts handed to np.unique "
@@ -80,7 +80,7 @@ CHECKS.update({
                   "(its derived expressions, not the code) for small diagrams under every perfect matching the library may have "
                   "accepted, forward and reverse look-ups included; MT-ACCEPT: def-use pairing of the two updates of the search loop "
                   "(matching kept / distance kept) and of the read of a growing holder",
-            CLAUSE + "Decides MT-ACCEPT (the matching reported was found at the distance reported), MT-NONINT, MT-COST, MT-MINUS1, MT-DROP, MT-COVER, MT-PROV, MT-GRAPH (the matching is searched in the "
+            CLAUSE + "Decides MT-LABELS (the text labels of the rows are not sorted as text on the way to the returned matching), MT-ACCEPT (the matching reported was found at the distance reported), MT-NONINT, MT-COST, MT-MINUS1, MT-DROP, MT-COVER, MT-PROV, MT-GRAPH (the matching is searched in the "
             "thresholded matrix itself, not its transpose or a relabelling) for both functions, whether the rows are "
             "appended one by one or built as a whole table (arange / where / column_stack / masks / stacked slices: the "
             "obligations are read off the element expression of every part, the listing condition is the union of the parts' "
@@ -91,7 +91,7 @@ CHECKS.update({
                   "sign analysis of the radicand; HT-MULT (non-accumulating scatter) and the narrowing dataflow (no cast of the "
                   "diagrams' coordinates to single precision: two inter-procedural fixpoints), both with positive examples",
             CLAUSE + "Decides HT-KER (incl. inputs with exact and near ties: conditions that select rows are exercised on both "
-            "sides), HT-DIST, HT-SWAP, HT-UNITS, HT-REAL, HT-STATE, HT-DTYPE (also: the squared distances are not formed in the integer dtype of the input arrays — found F13) and proves HT-SHIFT (row-selecting conditions are typed too) (translation invariance for "
+            "sides), HT-DIST, HT-SWAP, HT-UNITS, HT-REAL, HT-STATE, HT-ONESIGMA (heat executed with the bandwidth supplied through every parameter that can carry it, the kernel routines observed: all kernel terms of one distance receive one setting), HT-DTYPE (also: the squared distances are not formed in the integer dtype of the input arrays — found F13) and proves HT-SHIFT (row-selecting conditions are typed too) (translation invariance for "
             "every input, exact arithmetic). Declines: exact zeros in floating point, triangle inequality, stability.",
             SYMNOTE + "sigma > 0.", "DESIGN.md §4 C14"),
 })
@@ -118,7 +118,7 @@ CHECKS.update({
                   "expanded) + symbolic evaluation of the plotting functions against an abstract axes: drawing calls logged "
                   "with reachability conditions, coordinate normal forms and style arguments, one call site split into arms "
                   "by the conditions inside its coordinates",
-            CLAUSE + "Decides PL-RECV, PL-IDX, PL-FOOT, PL-SEG, PL-MAX, PL-DGM, PL-LIM, PL-LAND (both landscape plots evaluated on a 3-depth "
+            CLAUSE + "Decides PL-DTYPE (rotated coordinates are not stored into a scratch array typed by an integer diagram), PL-RECV, PL-IDX, PL-FOOT, PL-SEG, PL-MAX, PL-DGM, PL-LIM, PL-LAND (both landscape plots evaluated on a 3-depth "
             "landscape of symbols with a recording axes object, for a depth selection and the default, on a computed landscape and on one built with compute=False whose data "
             "appear only when compute_landscape is called: every line carries the requested depth's own data and label, and "
             "nothing is read from the landscape before it is computed). Declines: pixel-level "
@@ -177,7 +177,7 @@ CHECKS.update({
                   "ownership analysis of the worklist + normal forms of every emitted critical point over typed bar symbols + "
                   "site rules (copy-of-a-depth, mutate-while-iterating) on the helper-inlined view + symbolic execution of "
                   "the constructor for the degree selection",
-            CLAUSE + "Decides LX-COPY, LX-SORT, LX-EDGE, LX-NOCOPY, LX-ITER, LX-DEG, LX-INSERT — necessary conditions of the sweep — and, "
+            CLAUSE + "Decides LX-COPY, LX-SORT, LX-EDGE, LX-NOCOPY, LX-ITER, LX-DEG (degree selection; the trailing-infinite-bar test reads the death column of the diagram BEFORE the birth-first sort), LX-DTYPE (no sum of two bar end-points in the integer dtype of the input — found F14), LX-INSERT — necessary conditions of the sweep — and, "
             "BOUNDED, LX-SWEEP: for every weak ordering of the end-points of up to 3 bars (423 classes; plus 200 / thorough 1500 "
             "sampled classes of 4 bars) the sweep is followed with all its comparisons decided by the class and the critical "
             "pairs it emits are the k-th largest tent at every depth, and the sweep does not raise (the repeated-bar classes that fail "
@@ -214,8 +214,8 @@ CHECKS.update({
                   "an inexact run); TF-FIXED: a user-fixed end-point is still the user's symbol after two fits; TF-ORDER: transform / "
                   "fit_transform evaluated on collections of 2-5 diagrams, serial and n_jobs=2, with the per-diagram routine observed",
             CLAUSE + "Decides TF-RO, TF-CACHE (an attribute rebuilt under a recorded key is a memo, not fitted state: the key must contain every "
-            "outside-set attribute the build follows through the class's attribute dependency graph), TF-DATA (fit / transform / fit_transform never write through the data they are given), TF-FT, "
-            "TF-ORDER, TF-HIST. The landscaper latches start/stop across fits: genuine defect "
+            "outside-set attribute the build follows through the class's attribute dependency graph), TF-DATA (fit / transform / fit_transform never write through the data they are given), TF-FT (by evaluation when the call sites are not the plain ones: fit_transform against fit followed by transform — effective birth-persistence coordinates handed to the kernel, fitted geometry, returned value), "
+            "TF-ORDER (lists of 2-5 diagrams and a collection given as one stacked array), TF-HIST. The landscaper latches start/stop across fits: genuine defect "
             "kept as known findings K2-start/K2-stop (a latch on any other attribute is still reported). Declines: numerical "
             "equality of outputs across calls.",
             SYMNOTE + "scikit-learn's TransformerMixin.fit_transform is fit(X).transform(X).", "DESIGN.md §4 C18, §5 K2"),
@@ -229,7 +229,7 @@ CHECKS.update({
                   "padding/re-sampling on the helper-inlined view",
             CLAUSE + "Decides AR-RETVAL (no operator takes an operand's data from the return value of a call that can return nothing), AR-EFFECT, AR-OWN, AR-LAZY, AR-GUARD, AR-UNARY, AR-PAD (evaluator-based: what union_vals / "
             "union_crit_pairs return for operands of different depth), AR-SNAP (decided on the constructor calls observed while snap_pl is followed on two landscapes with independent symbolic "
-            "grids), AR-LAZYREAD (operators compute lazily built operands before reading them), AR-LC, AR-DEFAULT, and — BOUNDED — AR-MERGE: the "
+            "grids), AR-LAZYREAD (operators compute lazily built operands before reading them), AR-LC, AR-DEFAULT, AR-STYLE (the landscape tools executed with the grid given by keyword and by position, the tool they hand over to observed: the grid that arrives is the one asked for), and — BOUNDED — AR-MERGE: the "
             "slope merge (pos_to_slope_interp / sum_slopes / slope_to_pos_interp through union_crit_pairs) is followed for every "
             "ordering class (interleaving with ties) of the breakpoints of two depths with up to 3 breakpoints each (thorough: "
             "4; 126 / 787 classes), symbolic ordinates, and equals f_A + f_B at every breakpoint of the union. Declines: the "
@@ -250,7 +250,7 @@ CHECKS.update({
             "sample over each node, 0 where there are fewer, depth = largest count), GL-VEC (exact->grid: row d is np.interp of "
             "depth d's own breakpoints at the nodes of linspace(start, stop, num_steps), parameters forwarded, defaults = "
             "support of the first depth), GL-INDEX, GL-SNAP (nearest node per "
-            "coordinate, same axis), GL-FWD, GL-GRID, GL-DV, GL-INF, GL-DEFAULT. Together GL-SNAP+GL-RAMP+GL-PACK are the code's "
+            "coordinate, same axis), GL-FWD (also: a collection with an empty diagram in a lower degree reaches the constructor with every diagram in its place), GL-GRID, GL-DV, GL-INF, GL-DEFAULT. Together GL-SNAP+GL-RAMP+GL-PACK are the code's "
             "side of the half-step bound; the bound itself (an inequality over real values) and exactness on-grid as numeric "
             "statements are NOT decided.",
             "Trusted: np.linspace / np.interp semantics. Rules see through private helpers, temporaries and renaming; a "
